@@ -183,5 +183,48 @@ def render1 (A : Alphabet) (r : Src) : Bytes :=
 
 def render (A : Alphabet) (rs : List Src) : Bytes := rs.flatMap (render1 A)
 
+/-- a plain decimal lexeme: digits, optionally followed by `.` and digits -/
+def wfLex (lex : Bytes) : Bool :=
+  !(lex.takeWhile isDigit).isEmpty &&
+  match lex.dropWhile isDigit with
+  | [] => true
+  | 0x2E :: fp => fp.all isDigit
+  | _ => false
+
+/-- well-formed id line: starts with an ASCII non-blank character, is trimmed, has no line break,
+    is valid UTF-8, and cannot be taken for a matrix line (its second byte is not `:`) -/
+def WFId (id : Bytes) : Prop :=
+  (match id with
+   | b :: _ => b < 0x80 ∧ isWs1 b = false
+   | [] => False) ∧
+  trim id = id ∧ (∀ b ∈ id, b ≠ 0x0A ∧ b ≠ 0x0D) ∧ validUtf8 id = true ∧ (id.drop 1).head? ≠ some 0x3A
+
+instance (id : Bytes) : Decidable (WFId id) := by
+  unfold WFId; cases id <;> infer_instance
+
+/-- the matrix a well-formed motif must be read back as: the value of every lexeme in the row of
+    its position and the column of its symbol, other columns `zero` -/
+def expectMatrix (A : Alphabet) (conv : Bytes → Option α) (zero : α) (r : Src) : Mat α A.K :=
+  Mat.ofFn (r.cols.headD (0, [])).2.length fun i j =>
+    match r.cols.find? (·.1 == j) with
+    | some c => ((c.2.getD i []) |> conv).getD zero
+    | none => zero
+
+/-- well-formed motif: id line as above; at least one symbol line; symbols of the alphabet,
+    pairwise distinct, in any order; lines of one length `≥ 1`; plain decimal lexemes that `conv`
+    accepts; rows that pass the frequency test of `FrequencyMatrix::new` -/
+def WF (A : Alphabet) (conv : Bytes → Option α) (zero : α) (freqOk : Mat α A.K → Bool) (r : Src) : Prop :=
+  WFId r.id ∧ r.cols ≠ [] ∧ (∀ c ∈ r.cols, c.1 < A.K) ∧ (r.cols.map (·.1)).Nodup ∧
+  (∀ c ∈ r.cols, c.2.length = (r.cols.headD (0, [])).2.length) ∧
+  0 < (r.cols.headD (0, [])).2.length ∧
+  (∀ c ∈ r.cols, ∀ lex ∈ c.2, wfLex lex = true ∧ (conv lex).isSome = true) ∧
+  freqOk (expectMatrix A conv zero r) = true
+
+instance (A : Alphabet) (conv : Bytes → Option α) (zero : α) (freqOk : Mat α A.K → Bool) (r : Src) :
+    Decidable (WF A conv zero freqOk r) := by unfold WF; infer_instance
+
+def expect (A : Alphabet) (conv : Bytes → Option α) (zero : α) (r : Src) : URecord α A.K :=
+  { id := r.id, matrix := expectMatrix A conv zero r }
+
 end Uniprobe
 end LMV
